@@ -52,6 +52,8 @@ def families(ctx):
         fam("n4x", 8, both=False, N=4, kinds=BS, reqsets=1, reqs=1, owners=1, maxxor=2, mingroup=2, maxgroup=2)
         fam("n4g", 8, both=False, N=4, kinds=BS, reqsets=0, reqs=0, owners=1, maxxor=2, mingroup=2, maxgroup=4)
         fam("n4i", 9, both=False, N=4, kinds=BSI, reqsets=1, reqs=1, owners=1, maxxor=1, mingroup=2, maxgroup=2)
+        # 5 fields: two seed-chosen kind vectors of the 32 (the only family not enumerated completely)
+        fam("n5", 32, pick=2, both=False, N=5, kinds=BS, reqsets=1, reqs=2, owners=1, maxxor=1, mingroup=2, maxgroup=3)
     else:
         # the same families, the larger ones on seed-chosen shards of the kind vectors
         fam("n2", 2, pick=1, both=False, N=2, kinds=BSI + ["m"], maxmand=1, reqsets=2, reqs=2, owners=2, maxxor=2, mingroup=1, maxgroup=2)
@@ -146,6 +148,8 @@ def run(ctx):
     ctx.extra["distinct_definitions"] = len(seen)
     ctx.extra["distinct_pairs"] = sum(n for n, _ in seen.values())
     ctx.extra["execution_context_runs"] = ctx_counts
+    if ctx.thorough:
+        ctx.extra["thorough_scope"] = "every family enumerated completely except n5 (2 seed-chosen kind vectors of 32)"
     if not ctx.thorough:
         ctx.extra["quick_scope"] = "families n3/n3m/n4rx/n4x (and half of n2) restricted to one seed-chosen shard of the kind vectors each"
     ctx.assume("a bool field holding False (flag off) and an optional field holding None count as not set; "
